@@ -78,6 +78,11 @@ CLAIMED = {
             "Every joiner's first epoch state must equal the canonical record of that epoch (C01 oracle) and its exported tree must pass the C08 oracles; it immediately sends a message every member must decrypt and takes part in later commits (bounded liveness). The key package it joined with is still in its store before its first write_to_storage and gone afterwards. Injected mismatches must never yield a group: a Welcome offered to a party none of whose key packages it addresses, a Welcome (without tree extension) offered with the tree of another epoch, a stale GroupInfo offered with the current tree to the external-commit builder. One quarter of the runs let removed members return on the storage that still holds their earlier membership (the recorded finding).",
             "trusted: the simulator's membership model; last-resort key packages are not exercised (feature not enabled in the build under test); known finding D10 listed in known_findings.json",
             "DESIGN.md §6.C07"),
+    "C16": ("exploration",
+            "deterministic simulation with an external observer as a node: created from the GroupInfo of a seeded epoch with every max_epoch_jitter setting (unset, 0, 1, 3, epoch-1, epoch, epoch+1, 1000), fed the public handshake traffic in delivery-service order plus application ciphertexts of any age, snapshot / restore at seeded points, corrupted copies as faults, proposals issued as external sender",
+            "After every commit the observer's group context, roster and exported tree must equal the members' canonical record; it must accept every genuine public proposal and commit in DS order; ciphertexts of epochs inside [epoch - jitter, epoch] must be let through and older ones rejected (checked semantically, and the simulator is built with overflow checks so arithmetic wrap is a panic); bit flips and truncations of public messages must be rejected wherever the change is checkable without group secrets (i.e. outside the confirmation and membership tags) and leave the observer's snapshot unchanged; snapshot -> bytes -> load_group must give an identical observer; Add / Remove proposals it signs as a listed external sender must be accepted and committed by members (C01 oracle on the resulting epochs). Never a panic.",
+            "trusted: c13::public_layout to decide which byte ranges an observer can check; public (unencrypted) handshake configuration only, because an observer cannot follow encrypted handshake traffic",
+            "DESIGN.md §6.C16"),
 }
 
 NOT_APPLICABLE = {
